@@ -27,10 +27,13 @@ the executor's skip decision (`P/Skip.lean`, tied by `harness/skipcorr.py`):
 * **recycle_sound**: `Step.can_recycle` holds only if the four declared lists equal the recorded
   initial ones; a partial recycle (`Trellis.create` on a detached step) leaves the step PENDING
   with its source edges cut; a creator that loses a product loses its hash.
-* **redefinition_keeps_stale_env_rows** (the model-level form of finding `stale-env-dependency`):
-  the partial recycle keeps every `env_var` row of the step, and `add_env_deps` only replaces
-  rows of the names it is given, so a redefinition that drops a variable keeps depending on it.
-  `RedefinitionDeclaresEnv` (what C01 needs) is therefore not a theorem of the model.
+* **redefinition_declares_env_partial** (finding `stale-env-dependency`, fixed by 7574d5c): the
+  partial recycle leaves the step without `env_var` rows (`partial_recycle_clears_env_rows`) and
+  `add_env_deps` on a step without rows records exactly the declared names, all non-dynamic
+  (`addEnvDeps_from_empty`, `addEnvDeps_complete`); for the full recycle `recycle_sound` gives the
+  equality of the recorded and declared names.  The end-to-end statement `RedefinitionDeclaresEnv`
+  (through `supply_files` and the product declarations of `define_step`, which do not touch
+  `env_var`) is kept as a `def`; the kernel correspondence compares the rows after every request.
 
 Not proved (oracle only): `closed_unique`, `successful_build_closed` (DESIGN T1/T2), the
 propagation of whole `update_file_hashes` batches beyond the single-file case shown here, and
@@ -382,49 +385,97 @@ theorem partial_recycle_pending (s s' : KState) (k : Key) (n : Node) (creator : 
             · intro m hm; exact hm
 
 /-- What C01 needs of a redefinition: afterwards the non-dynamic `env_var` rows of the step are
-the declared variables.  NOT a theorem of the model (nor of the code): see below. -/
+the declared variables, nothing left over from an earlier definition. -/
 def RedefinitionDeclaresEnv : Prop :=
   ∀ (s s' : KState) (cfg : KConfig) (creator : Key) (d : StepDecl) (chk : List String) (sk : Key) (n : Node),
     s.defineStep cfg creator d = .ok (s', chk) → stepLabel d.cmd d.workdir = some sk.label → sk.kind = .step →
-    s'.find? sk = some n → ∀ e ∈ n.envs, e.2.2 = false → e.1 ∈ d.env
+    s'.find? sk = some n → ∀ e ∈ n.envs, e.2.2 = false → e.1 ∈ normPaths d.env
 
-/-- **redefinition_keeps_stale_env_rows**, first half: the partial recycle of a step keeps all
-its `env_var` rows (`Trellis.create` cuts the source edges and re-creates the `step` row, but the
-satellite rows survive). -/
-theorem partial_recycle_keeps_env_rows (s s' : KState) (k : Key) (n : Node) (creator : Option Key) (i : StepInit)
+/-- **redefinition_declares_env_partial**, creation branch, first half: the partial recycle of a
+step (`Trellis.create` on an existing detached step node) leaves it without any `env_var` row
+(`Step.initialize_row` deletes them; before the fix 7574d5c they survived and a redefinition that
+dropped a variable kept depending on it: finding `stale-env-dependency`). -/
+theorem partial_recycle_clears_env_rows (s s' : KState) (k : Key) (n : Node) (creator : Option Key) (i : StepInit)
     (hn : s.find? k = some n) (h : s.create k creator (.step i) = .ok s') :
-    (s'.find? k).map (·.envs) = some n.envs := by
+    (s'.find? k).map (·.envs) = some [] := by
   unfold KState.create at h
   simp only [hn] at h
   split at h
   · simp [throw, throwThe, MonadExceptOf.throw] at h
   · split at h
     · simp [throw, throwThe, MonadExceptOf.throw] at h
-    · rw [envFrame_find? s s' (envFrame_recycleCore_step s s' k n creator i h) k, hn]
-      rfl
+    · obtain ⟨s3, hframe, hs'⟩ := recycleCore_step_split s s' k n creator i h
+      have h3 := envFrame_find? s s3 hframe k
+      rw [hn] at h3
+      subst hs'
+      unfold KState.initStepRow
+      rw [find?_modify_self]
+      · cases hf : s3.find? k with
+        | none => simp [hf] at h3
+        | some m => rfl
+      · intro m hm; exact hm
 
-/-- Second half: `Step.add_env_deps` (`INSERT OR REPLACE` of the declared names) removes no row
-of another name.  Together: after `define_step` redefines a detached step with fewer variables
-(the creation branch: `create`, then `add_env_deps`), the dropped variable is still recorded,
-`get_step_info` still reports it and a change of its value still reruns the step, unlike after
-a build from scratch. -/
-theorem addEnvDeps_keeps_other_rows (cfg : KConfig) (n : Node) (names : List String)
-    (e : String × Option String × Bool) (he : e ∈ n.envs) (hne : e.1 ∉ names) :
-    e ∈ (addEnvDeps cfg n names).envs := by
+/-- Second half: `Step.add_env_deps` adds exactly the declared names, as non-dynamic rows, and
+keeps nothing else but what was there: on a step without rows the result is the declaration. -/
+theorem addEnvDeps_rows (cfg : KConfig) (n : Node) (names : List String)
+    (e : String × Option String × Bool) (he : e ∈ (addEnvDeps cfg n names).envs) :
+    e ∈ n.envs ∨ (e.1 ∈ names ∧ e.2.2 = false) := by
+  unfold addEnvDeps at he
+  induction names generalizing n with
+  | nil => exact Or.inl he
+  | cons a as ih =>
+    simp only [List.foldl_cons] at he
+    rcases ih _ he with h | h
+    · simp only [List.mem_append, List.mem_filter, List.mem_singleton] at h
+      rcases h with h | h
+      · exact Or.inl h.1
+      · subst h; exact Or.inr ⟨List.mem_cons_self, rfl⟩
+    · exact Or.inr ⟨List.mem_cons_of_mem _ h.1, h.2⟩
+
+/-- Every declared name gets a row. -/
+theorem addEnvDeps_complete (cfg : KConfig) (n : Node) (names : List String) (a : String) (ha : a ∈ names) :
+    ∃ e ∈ (addEnvDeps cfg n names).envs, e.1 = a := by
   unfold addEnvDeps
   induction names generalizing n with
-  | nil => exact he
-  | cons a as ih =>
+  | nil => cases ha
+  | cons x xs ih =>
     simp only [List.foldl_cons]
-    apply ih
-    · simp only [List.mem_append, List.mem_filter]
-      left
-      refine ⟨he, ?_⟩
-      simp only [ne_eq, decide_eq_true_eq]
-      intro h
-      exact hne (by simp [h])
-    · intro h
-      exact hne (List.mem_cons_of_mem _ h)
+    by_cases hmem : a ∈ xs
+    · exact ih _ hmem
+    · have hax : a = x := by
+        rcases List.mem_cons.mp ha with h | h
+        · exact h
+        · exact absurd h hmem
+      subst hax
+      -- the row appended for `a` is not removed by the later names
+      have keep : ∀ (l : List String) (m : Node), a ∉ l → (∃ e ∈ m.envs, e.1 = a) →
+          ∃ e ∈ (l.foldl (fun n name =>
+            { n with envs := (n.envs.filter (·.1 ≠ name)) ++ [(name, envValue cfg name, false)] }) m).envs, e.1 = a := by
+        intro l
+        induction l with
+        | nil => intro m _ h; exact h
+        | cons y ys ihy =>
+          intro m hnot ⟨e, hem, hea⟩
+          simp only [List.foldl_cons]
+          apply ihy
+          · exact fun h => hnot (List.mem_cons_of_mem _ h)
+          · refine ⟨e, ?_, hea⟩
+            simp only [List.mem_append, List.mem_filter]
+            left
+            refine ⟨hem, ?_⟩
+            simp only [ne_eq, decide_eq_true_eq]
+            intro h
+            exact hnot (by rw [← hea, h]; exact List.mem_cons_self)
+      exact keep xs _ hmem ⟨(a, envValue cfg a, false), by simp, rfl⟩
+
+/-- On a step without recorded variables (a fresh node, or a partially recycled one by
+`partial_recycle_clears_env_rows`), `add_env_deps` records exactly the declaration. -/
+theorem addEnvDeps_from_empty (cfg : KConfig) (n : Node) (names : List String) (hn : n.envs = []) :
+    ∀ e ∈ (addEnvDeps cfg n names).envs, e.1 ∈ names ∧ e.2.2 = false := by
+  intro e he
+  rcases addEnvDeps_rows cfg n names e he with h | h
+  · rw [hn] at h; cases h
+  · exact h
 
 /-! Non-vacuity -/
 example : trySkip (⟨1, 2⟩ : Digests Nat) (some 1) (some 2) = .skipped ⟨1, 2⟩ := by decide
